@@ -132,9 +132,35 @@ def history(ctx, aotools, variant, nreq, ps, r0, L0, extra, rng, n_ops):
         ctx.count("histories_longer_than_buffer")
 
 
+class _FineRegime:
+    """Below ~1e-5 L0 the stencil covariance is conditioned beyond double precision (1 - rho ~ 1e-7 is not resolved);
+    every stability failure there is one mechanism, recorded as a known finding -- above it each clause is its own."""
+
+    def __init__(self, ctx):
+        self._c = ctx
+
+    def __getattr__(self, n):
+        return getattr(self._c, n)
+
+    def _m(self, mech):
+        return "stability:unstable_or_inexact:pixel_scale_below_1e-5_L0" if mech.startswith("stability:") else mech
+
+    def check(self, cond, mechanism, message, witness=None):
+        return self._c.check(cond, self._m(mechanism), message, witness)
+
+    def close(self, name, got, want, tol, mechanism, witness=None, scale=None):
+        return self._c.close(name, got, want, tol, self._m(mechanism), witness, scale)
+
+    def fail(self, mechanism, message, witness=None):
+        return self._c.fail(self._m(mechanism), message, witness)
+
+
 def stability(ctx, aotools, nx, ps, r0, L0, ncol, rng, long_rows):
     from scipy import linalg
-    wit = {"nx": nx, "pixel_scale": ps, "r0": r0, "L0": L0, "n_columns": ncol}
+    if ps / L0 < 1e-5:
+        ctx = _FineRegime(ctx)
+        ctx.count("stability_configs_below_1e-5_L0")
+    wit = {"nx": nx, "pixel_scale": ps, "r0": r0, "L0": L0, "n_columns": ncol, "pixel_scale/L0": ps / L0}
     try:
         # a sibling with the same geometry but another r0 is built first in the same process: state shared between
         # instances (e.g. a cache with an incomplete key) would then reach the object under test
@@ -156,6 +182,13 @@ def stability(ctx, aotools, nx, ps, r0, L0, ncol, rng, long_rows):
         F[nx:, :ns - nx] = np.eye(ns - nx)
     G = np.zeros((ns, nx))
     G[:nx] = B
+    # a constant offset must decay (otherwise it is never forgotten and the statistics cannot converge to the model):
+    # the response of the new row to a constant screen is the row sum of the observed map; for the conditional
+    # von Karman law it is 1 - delta with delta > 0 (measured >= 6e-7 down to pixel scales of 7e-7 L0)
+    rowsum = M.sum(axis=1)
+    ctx.metric_min("min:one_minus_response_to_constant_screen", float(1 - rowsum.max()))
+    ctx.check(float(rowsum.max()) <= 1 - 1e-9, "stability:constant_offset_never_forgotten",
+              "a constant screen is reproduced with gain %.12f: a piston offset never decays" % float(rowsum.max()), wit)
     rho = float(np.abs(np.linalg.eigvals(F)).max())
     ctx.metric("spectral_radius_max", rho)
     ctx.metric_min("min:one_minus_spectral_radius", 1 - rho)
@@ -229,9 +262,13 @@ def run(ctx, spec):
             r0 = float(10 ** rng.uniform(-1.3, 0))
             n_ops = int(rng.integers(60, 400)) if nreq <= 33 else 30
             history(ctx, aotools, variant, nreq, ps, r0, L0, extra, rng, n_ops)
+    # extreme sampling: the construction either refuses (LinAlgError, counted) or must give a stable recursion
+    if spec["shard"] < 6:
+        ext = [1e-6, 1e-7, 1e-8, 1e-9, 1e-10, 3e-12][spec["shard"]]
+        stability(ctx, aotools, int(rng.integers(6, 14)), 100.0 * ext, 0.2, 100.0, 2, rng, 200)
     for s in range(spec["stab"]):
         nx = int(rng.integers(5, 22))
         L0 = float(10 ** rng.uniform(0, 2))
         # from coarse sampling down to pixel scales of 1e-5 L0, where the stencil covariance is extremely ill conditioned
-        ps = float(L0 * 10 ** rng.uniform(-5.0, -0.6))
+        ps = float(L0 * 10 ** rng.uniform(-4.8, -0.6))
         stability(ctx, aotools, nx, ps, float(10 ** rng.uniform(-1.3, 0)), L0, int(rng.integers(1, 4)), rng, spec["long_rows"])
